@@ -110,6 +110,8 @@ Proof.
   - exact toy_neg.
   - split; [reflexivity|discriminate].
   - vm_compute. reflexivity.
+  - intros Q HQ. assert (H : forallb (fun A => peq (pmul toy 31 A) None) toy_points = true) by (vm_compute; reflexivity).
+    apply peq_eq. exact (forall_points _ H Q HQ).
 Qed.
 
 Theorem toy_InvFacts : InvFacts toy.
